@@ -52,8 +52,8 @@ IsPerm(p, d) == Len(p) = d /\ {p[i] : i \in 1..d} = 0..(d - 1)
 SeqToSet(s) == {s[i] : i \in 1..Len(s)}
 NoDup(s) == Cardinality(SeqToSet(s)) = Len(s)
 
-RemoveAt(s, i) == [j \in 1..(Len(s) - 1) |-> IF j < i THEN s[j] ELSE s[j + 1]]
-InsertAt(s, i, v) == [j \in 1..(Len(s) + 1) |-> IF j < i THEN s[j] ELSE IF j = i THEN v ELSE s[j - 1]]
+DropAt(s, i) == [j \in 1..(Len(s) - 1) |-> IF j < i THEN s[j] ELSE s[j + 1]]
+PutAt(s, i, v) == [j \in 1..(Len(s) + 1) |-> IF j < i THEN s[j] ELSE IF j = i THEN v ELSE s[j - 1]]
 
 \* all shapes of dimension dmin..dmax with extents in E
 ShapesOf(dmin, dmax, E) == UNION {[1..d -> E] : d \in dmin..dmax}
